@@ -271,6 +271,24 @@ def gen_C16(c, rng, tier):
         c.add('d', 'subcalls', [total, rank, world], classes=['wide_totals'], nontrivial=nt)
         sub = total // world + (1 if rank < total % world else 0)
         c.add('d', 'split', [total, sub, rank, world], classes=['wide_totals_split'], nontrivial=nt)
+    gen_C16_mpi(c, rng, tier)
+
+def gen_C16_mpi(c, rng, tier):
+    """the split as the three MPI drivers use it: every rank must end each iteration at the common stream position (the stored
+    generators of all ranks and of the serial run coincide), also when the returned checkpoint is used again"""
+    for t in ['d', 'f']:
+        fmt = FMTS[t]
+        for kind in KINDS:
+            for _ in range(scale(tier, 3, 20)):
+                iters = rng.choice([1, 2, 3])
+                s, cl, info = rand_run(rng, fmt, kind, iters=iters, calls=[1, 2, 5, 7, 11, 16], poly=True, finite_only=True, dists=[], trace=1, cb=['script', []], grid_map=True)
+                calls = info['calls']
+                P = rng.choice([2, 3, 5, 8]); perm = list(range(P)); rng.shuffle(perm)
+                ops = [['mpi', calls, P, perm], ['dump']]
+                if rng.random() < 0.5:
+                    ops += [['mpi', calls[:1], P, perm], ['dump']]          # resume from the returned checkpoint
+                s = [e for e in s if e[0] != 'ops'] + [['ops', ops]]
+                c.add(t, 'run', s, classes=cl + ['mpi_driver', 'world_%d' % P], info=info)
 
 @prop('C09', 'weight vectors (zeros front/middle/end, normalised or not, length 1..12) x canonical numbers at 0, pred(1), every '
       'cumulative boundary and both neighbours, plus random; 3 types; non-trivial = vector has a zero weight or the number is a boundary',
@@ -567,6 +585,16 @@ def gen_C11(c, rng, tier):
         for _ in range(scale(tier, 10, 60)):
             d = rand_dists(rng, fmt, n=1, two_d=True)[0]
             c.add(t, 'midpoints', d[:6], classes=['midpoints'])
+        for kind in ['vegas', 'mc']:
+            for _ in range(scale(tier, 5, 40)):
+                # huge but finite values with point weights different from one (adapted / user grids, channel maps incl. non-finite
+                # jacobians): the product decides whether a contribution is finite, not the value handed to the projector
+                dl = rand_dists(rng, fmt, n=rng.choice([1, 2]))
+                s, cl, info = rand_run(rng, fmt, kind, dists=dl, calls=[6, 12], iters=rng.choice([2, 3]), trace=1, poly=False, user_state=(kind == 'vegas'),
+                                       special_map=(kind == 'mc'), wants=(1 if kind == 'mc' and rng.random() < 0.5 else None), value_classes=['small_int', 'frac', 'zero'])
+                huge = [fmt.round(fmt.max / rng.choice([1, 2, 3])), fmt.round(-fmt.max / 2), fmt.round(Fraction(2) ** (fmt.emax - 3)), Fraction(1), Fraction(0)]
+                s = [e if e[0] != 'f' else ['f', ['tab', toks(fmt, [rng.choice(huge) for _ in range(7)])]] for e in s]
+                c.add(t, 'run', s, classes=cl + ['huge_finite_values', 'weights_not_one'], info=info)
 
 @prop('C12', 'scripted user callbacks returning false at every position of 1-6 iteration lists; the built-in callback on zero / constant / zero-mean / non-finite '
       'integrands with targets 0, tiny, moderate, 1; four modes; resumed checkpoints; non-trivial = at least two requested iterations',
@@ -600,6 +628,7 @@ def gen_C12(c, rng, tier):
                 c.add(t, 'run', s, classes=cl + cl2, nontrivial=iters >= 2, info=info)
     gen_C12_resumed(c, rng, tier)
     gen_C12_cancelling(c, rng, tier)
+    gen_C12_mpi(c, rng, tier)
 
 def gen_C12_cancelling(c, rng, tier):
     """iterations whose values cancel exactly (estimate 0 with a positive error) followed by ordinary ones: such an iteration takes part
@@ -619,6 +648,18 @@ def gen_C12_cancelling(c, rng, tier):
                 s = spec_run(kind, fmt, dims=1, seed=rng.getrandbits(32), chk=chk, f=['tab', toks(fmt, [fmt.round(x) for x in tab])],
                              cb=['builtin', rng.randrange(4), fmt.rtok(target)], ops=[['run', [n] * iters], ['dump'], ['combine', 'wwv']])
                 c.add(t, 'run', s, classes=['kind_' + kind, 'cancelling_iteration', 'cb_builtin', 'target_positive'], info={'kind': kind, 'dims': 1, 'channels': 1, 'calls': [n] * iters})
+
+def gen_C12_mpi(c, rng, tier):
+    """the MPI wrapper of the built-in callback: with a target precision every rank must take the decision rank 0 takes (otherwise rank 0
+    leaves while the others wait in the next collective), in every mode"""
+    for t in TYPES:
+        fmt = FMTS[t]
+        for kind in KINDS:
+            for _ in range(scale(tier, 3, 20)):
+                iters = rng.choice([3, 4, 6]); target = rng.choice([Fraction(1, 4), Fraction(1, 10), Fraction(2, 5), Fraction(1, 2)])
+                s, cl, info = rand_run(rng, fmt, kind, iters=iters, calls=[6, 12, 20], cb=['builtin', rng.choice([1, 2, 3, 0]), fmt.rtok(target)], poly=True, finite_only=True, dists=[])
+                s, cl3 = mpi_variant(rng, s, info, worlds=(2, 3, 5))
+                c.add(t, 'run', s, classes=cl + cl3 + ['cb_builtin', 'target_positive'], info=info)
 
 def gen_C12_resumed(c, rng, tier):
     """the built-in callback with a positive target on resumed checkpoints: the stop decision must use all results, also those
